@@ -1,8 +1,9 @@
 """usage: tools/keep_seeded.py <Cxx> <N> <caught_by comma list or -> "<needs>"  : copies a confirmed seeded change into /verif/seeded/"""
 import json, os, shutil, sys
 P, N, caught, needs = sys.argv[1], sys.argv[2], sys.argv[3], sys.argv[4]
-src = f"/tmp/wt_{P}_out"
-dst = f"/verif/seeded/{P}-m{N}"
+R = os.environ.get("ROUND", "")
+src = f"/tmp/wt{R}_{P}_out"
+dst = f"/verif/seeded/{P}-" + (f"r{R}-" if R else "") + f"m{N}"
 os.makedirs(dst, exist_ok=True)
 shutil.copyfile(f"{src}/mutant{N}.diff", f"{dst}/patch.diff")
 shutil.copyfile(f"{src}/mutant{N}_demo.py", f"{dst}/demo.py")
